@@ -104,6 +104,7 @@ class Gen:
         f.xr = ['x0']
         f.tmp_i = ['t0', 't1', 't2', 't3']
         f.ncnt = 0
+        f.nal = 0
         f.argregs = []
         for i, t in enumerate(f.args):
             f.argregs.append(('a%d' % i, regclass(t)))
@@ -297,8 +298,12 @@ class Gen:
             o.append('%s:' % le)
         elif r < 0.82 and self.ok('alloca') and inloop == 1 and depth == 0:
             self.feats.add('alloca')
-            o += ['alloca t3, 64', 'mov i64:(t3), %s' % a, 'mov i64:24(t3), %s' % b, 'mov %s, i64:(t3)' % c,
-                  'add %s, %s, i64:24(t3)' % (c, c)]
+            # a register written by nothing but this alloca (MIR_link hoists constant-size allocas of
+            # inlined callees to the caller's entry, which is C04's business, not ours)
+            al = 'al%d' % f.nal
+            f.nal += 1
+            o += ['alloca %s, 64' % al, 'mov i64:(%s), %s' % (al, a), 'mov i64:24(%s), %s' % (al, b),
+                  'mov %s, i64:(%s)' % (c, al), 'add %s, %s, i64:24(%s)' % (c, c, al)]
         elif r < 0.87:
             self.feats.add('ext')
             k = rng.random()
@@ -464,7 +469,7 @@ class Gen:
                     hdr.append('...')
                 txt.append('%s: func %s' % (f.name, ', '.join(hdr)))
                 loc = ['i64:' + r for r in f.ir + f.tmp_i] + ['d:' + r for r in f.dr] + ['f:' + r for r in f.sr] + ['ld:x0']
-                loc += ['i64:c%d' % i for i in range(f.ncnt)]
+                loc += ['i64:c%d' % i for i in range(f.ncnt)] + ['i64:al%d' % i for i in range(f.nal)]
                 if f.kind == 'va':
                     loc.append('i64:va')
                 txt.append('  local ' + ', '.join(loc))
